@@ -26,6 +26,7 @@ CLAIMED = {
     'C09': ('TLC trace validation vs filters/ideals and rank order', '6/C09'),
     'C10': ('TLC trace validation vs reduced labelling (object/attribute concepts)', '6/C10'),
     'C11': ('TLC trace validation of the persistence life cycle (lazy-lattice flag as state) vs Documents.tla; loaded objects compared with recomputed ones through full public observations', '6/C11'),
+    'C12': ('TLC trace validation of round trips and of independently read/written text; TLA+ writers (TextFormats.tla) enumerate laid-out documents that the library must load', '6/C12'),
     'C13': ('TLC trace validation of the complete one-step relation, 2-step paths and random histories vs Definition.tla; DefSys.tla model checked (WF inductive, errors change nothing)', '6/C13'),
     'C14': ('TLC trace validation of all pairs x derivations x follow-up edits with every live handle logged (Frame clause) vs Definition.tla', '6/C14'),
     'C15': ('TLC trace validation of relational clauses between the lattices of a context and of its permuted / transposed / duplicated variants (FCA.tla transformation operators; laws model checked in Theorems.tla)', '6/C15'),
@@ -37,7 +38,6 @@ CLAIMED = {
 }
 
 NOT_YET = {
-    'C12': 'not built yet in this revision (text-format traces and TLA+ writers are next in DESIGN.md section 12)',
 }
 
 
@@ -103,6 +103,12 @@ TEXTS = {
             'seeds) with and without (lazily present) lattice and with random permutations under raw=True; TLC '
             'validates the exports field by field and that the full public observation of every loaded object equals '
             'that of a context recomputed from scratch; lattices up to a few thousand concepts.'),
+    'C12': ('Code -> spec: every dump of the library is projected by an independent reader written from the format '
+            'description and TLC checks Read(Dump(x)) = x and Load(Dump(x)) = x over all small tables x per-format label '
+            'alphabets x {string, file} x encodings x csv dialects x cell symbols x indents, suffix inference, FIMI and '
+            '.dat index rows. Spec -> code: TextGen.tla/TextFormats.tla (writers for table, cxt, csv stated in TLA+, '
+            'incl. the csv quoting rule) enumerate laid-out documents (layout: padding side, indent, extra width, '
+            'delimiter) which the library must load as the same context; the TLA+ and Python writers are cross-checked.'),
     'C17': ('Hyper-property: the same seeded call corpus is executed in K separate interpreter processes with different '
             'PYTHONHASHSEED values; the K recorded traces are validated jointly by TLC (TraceDet.tla): call i must be '
             'the same call with the same textual observation in all of them. The specification contributes that every '
